@@ -53,14 +53,22 @@ var kinds = []kind{
 }
 
 // fail produces the failure of the given kind (returns or panics).
-func fail(k kind) error {
+// For the kinds that carry an error value, every failing item gets its OWN
+// error value (wrapping the sentinel), recorded in failed, so that the oracle
+// can ask for each failure that happened individually.
+func fail(k kind, item int, failed map[int]error) error {
+	own := func(base error) error {
+		e := fmt.Errorf("item %d: %w", item, base)
+		failed[item] = e
+		return e
+	}
 	switch k.name {
 	case "plain":
-		return errPlain
+		return own(errPlain)
 	case "wrapped":
-		return fmt.Errorf("outer: %w", errInner)
+		return own(fmt.Errorf("outer: %w", errInner))
 	case "panic-error":
-		panic(errPlain)
+		panic(own(errPlain))
 	case "panic-string":
 		panic("boom")
 	case "panic-int":
@@ -144,6 +152,7 @@ type obs struct {
 	result error
 	done   bool
 	outs   []int
+	failed map[int]error // item -> the error value its processing function returned / panicked with
 }
 
 // user function shared by all constructs: item == failAt (or failAt2) fails.
@@ -153,7 +162,10 @@ func (o *obs) invoke(item int, k kind, failAt map[int]bool) error {
 	defer func() { c.end = vs.Now() }()
 	vs.Yield()
 	if failAt[item] {
-		return fail(k)
+		if o.failed == nil {
+			o.failed = map[int]error{}
+		}
+		return fail(k, item, o.failed)
 	}
 	return nil
 }
@@ -284,6 +296,14 @@ func scenario(cs construct, n, w int, c conf, k kind, pos []int) vs.Scenario {
 							return "original-not-found/" + k.name, where + ": " + o.result.Error()
 						}
 					}
+					// every failure that actually happened is reported, not just one of them
+					// ("never swallowed"), also the one of a sibling that was in flight when
+					// the first failure aborted the group
+					for item, own := range o.failed {
+						if !errors.Is(o.result, own) {
+							return "swallowed/one-of-several/" + k.name, where + fmt.Sprintf(": the failure of item %d is not in the result (%d items failed): %v", item, len(o.failed), o.result)
+						}
+					}
 					if k.isPanic && !errors.Is(o.result, fun.ErrRecoveredPanic) {
 						return "panic-not-marked/" + k.name, where + ": " + o.result.Error()
 					}
@@ -380,6 +400,9 @@ func build(tier string) ([]runner.Instance, time.Duration) {
 						}
 					} else {
 						positions = append(positions, []int{1, n})
+						if w >= 2 {
+							positions = append(positions, []int{1, 2}) // two workers fail side by side
+						}
 					}
 					for _, pos := range positions {
 						b := bound
